@@ -51,7 +51,10 @@ THEOREMS = [_T + n for n in [
     "C15_stft_options_default", "C15_stft_options_truthful", "C15_stft_options_same_steps",
     "C15_positional_binding", "C15_signatures_wellformed",
     "C15_session_length", "C15_session_prefix", "C15_session_step", "C15_session_look",
-    "C15_loaded_exact", "C15_resample_exact_iff", "C15_session_truthful"]]
+    "C15_loaded_exact", "C15_resample_exact_iff", "C15_session_truthful",
+    # follow-up (wave 5): the file system is state - the WAV file under a path is rewritten between loads
+    "C15_fs_reads_never_write", "C15_fs_load_after_rewrite", "C15_fs_take", "C15_fs_history_free", "C15_fs_history",
+    "C15_fs_history_recording"]]
 LEVEL_TEXT = ("Lean theorems over the integer/rational model of load_clip, load_recording, resample and "
               "compute_spectrogram: a clip has exactly floor(duration x samplerate) frames, frame i is file frame "
               "floor(start x samplerate)+i (zero past the end) at time (offset+i)/samplerate and equals that frame and "
@@ -83,7 +86,17 @@ LEVEL_TEXT = ("Lean theorems over the integer/rational model of load_clip, load_
               "is applied only to arrays whose spacing is their advertised step (arrays from a file always are, "
               "C15_loaded_exact; resampled ones iff nothing was truncated, C15_resample_exact_iff) every array produced - "
               "loaded, resampled, sliced, looked at again, both axes of every spectrogram for every padded / boundary - "
-              "is truthful (C15_session_truthful).")
+              "is truthful (C15_session_truthful). Follow-up (wave 5, the file system is state): a one-cell-per-path "
+              "file system of WAV files (frames, channels, header rate) with the calls put (the file is rewritten), rm, "
+              "Recording.from_file, load_clip, load_recording (SoundeventModel/Audio/FileSys.lean): after any history, once "
+              "the file under a path has been rewritten - longer, shorter, another samplerate or channel count, other "
+              "samples of equal length - every read of that path answers for the new content, whatever was loaded before "
+              "and whatever other paths were written since (C15_fs_load_after_rewrite; reads never write, "
+              "C15_fs_reads_never_write); a take (rewrite, from_file, load_clip, load_recording) is history-free "
+              "(C15_fs_take, C15_fs_history_free) and therefore every history of takes answers step by step as the pure "
+              "model on the content of that step (C15_fs_history, an instance of History.historyFree_iff), the loaded "
+              "recording being exactly the frames written at that step (C15_fs_history_recording); an implementation that "
+              "keeps sound files open per path is proved not history-free on a concrete history.")
 LEVEL_NOTE = ("Unmodelled: soundfile I/O, scipy's STFT / resample numerics, numpy `arange` in floats (their contracts - "
               "seek+read with zero fill, segment count and times of stft, `t0 + dt*n/num*k` of resample - are formulas of "
               "the model and are compared on every run); binary64 rounding in front of `int()`/`floor` (inputs whose "
@@ -96,7 +109,9 @@ LEVEL_NOTE = ("Unmodelled: soundfile I/O, scipy's STFT / resample numerics, nump
               "generated sessions / call sequences (every array handed out earlier is looked at again after every later "
               "call: values, coordinates, attrs of the array and of its coordinates) and, for the four functions' own "
               "statements, by the symbolic traces (which also check that the traced function wrote nothing into its "
-              "argument). Slices / copies are xarray's (`isel`, `copy`), modelled as the corresponding part of the axis. "
+              "argument). That every load opens the file as it is on disk now (no handle, header or content kept per "
+              "path) is likewise observed, on generated histories in which the harness rewrites the file between loads "
+              "(operation file_history, judged by the Lean file-system model). Slices / copies are xarray's (`isel`, `copy`), modelled as the corresponding part of the axis. "
               "Numeric argument types (int, float, numpy float64 / float32 / int64 / int32) and construction paths "
               "(constructor, model_validate, JSON, model_copy, assignment) are exercised, not modelled: the model sees "
               "the value.")
@@ -104,7 +119,8 @@ TECHNIQUE = ("Lean 4 proof over model; symbolic traces of the audio functions' o
              "symbolic) proved equal to the model's plans for all inputs on every run; signature table tied to "
              "inspect.signature (Tie 1); differential correspondence on real WAV files (exact / round-once / tolerance) "
              "for single calls, call sequences on shared objects and sessions of derived arrays judged by the Lean "
-             "session model; theorem-backed axis monitor on implementation output")
+             "session model, and histories in which the WAV file under a path is rewritten between loads judged by the Lean "
+             "file-system model; theorem-backed axis monitor on implementation output")
 RULE = ("clips x files (1-3 channels, 15 file rates incl. odd and power-of-two ones, expansion 1/2/10) on and off sample "
         "boundaries, past the end of file, zero length; exhaustive small scope; recordings; spectrogram and resample "
         "pipelines with whole and fractional numbers of samples, windows shorter than, as long as and longer than the "
@@ -123,7 +139,13 @@ RULE = ("clips x files (1-3 channels, 15 file rates incl. odd and power-of-two o
         "with results edited by the caller and re-read after later calls (harness/history.py), sessions of derived arrays "
         "(load -> spectrogram -> look again -> resample -> resample -> spectrogram, options followed by plain calls, a "
         "result edited then the same call again, slices, copies; skeletons + random derivation graphs), every array "
-        "produced judged by the Lean session model and re-read after every later call; non-trivial = the implementation "
+        "produced judged by the Lean session model and re-read after every later call; file histories: the WAV file "
+        "under a path rewritten between loads (longer, much longer, shorter, other samplerate, other channel count, other "
+        "samples of equal length, the same content, another expansion factor; in place / renamed over / unlinked first; "
+        "2-4 contents per path, one or two paths), the Recording re-made by from_file / the constructor or the earlier "
+        "object brought up to date by assignment / model_copy(update), before and after every rewrite the same clips, a "
+        "clip of frames that exist only now, a clip around the old end, the whole file, load_recording; arrays loaded "
+        "before a rewrite re-read after it; non-trivial = the implementation "
         "returned an array with at least one frame / coordinate (a session: at least one step did); distinct = distinct "
         "(operation, input)")
 TRUSTED = ["soundfile / libsndfile: `seek` + `read(frames, always_2d, fill_value=0)`; PCM_16 codes read back as code/32768",
@@ -138,6 +160,8 @@ TRUSTED = ["soundfile / libsndfile: `seek` + `read(frames, always_2d, fill_value
            "the start when there is no boundary extension (formulas of the model, compared each run)",
            "xarray: `isel(time=slice(a, b))` keeps that part of the coordinate and its attrs; `copy(deep=True)` copies; "
            "DataArray / Variable constructors copy the attrs dict they are given",
+           "the file system: soundfile.write(path) / os.replace / os.remove replace the content of exactly that path "
+           "(the harness reads nothing back: it judges by the PCM codes it wrote)",
            "pydantic: Clip / Recording accept int, numpy scalars for float fields; model_validate / model_validate_json / "
            "model_copy give equal objects"]
 ASSUMPTIONS = ["binary64 arithmetic is exact on the grids used (dyadic times with <= 24 fractional bits, integer rates < 2^22)",
@@ -145,6 +169,8 @@ ASSUMPTIONS = ["binary64 arithmetic is exact on the grids used (dyadic times wit
                "truthfulness theorems of resample assume an input whose spacing is its advertised step (`hdt`); outside it "
                "the axis is monitored and the known finding C15-2 (specific matcher) absorbs exactly those inputs; the "
                "spectrogram theorems have no such hypothesis (fix C15-3 assumed present: `nperseg` clamped to the audio)",
+               "a rewrite of a file advances its modification time by at least 1 ms (the harness sets it when the clock "
+               "did not): a cache validated by (mtime, size) counts as correct, one validated by size or by whole seconds does not",
                "clips start inside the file or at its very end, start >= 0 (otherwise libsndfile cannot seek: error on both sides)"]
 NOT_COMPARED = ["spectrogram / resampled sample values (scipy numerics; the property pins the axes)",
                 "error messages; which exception a failed seek raises (any exception <-> model `seek`)",
@@ -902,6 +928,12 @@ def _holds_load_clip(ctx, inp, io):
     codes = np.array([[_fl(x) if isinstance(x, str) else x for x in row] for row in v["frames"]], dtype=float)
     N = rdata.shape[0]
     fcodes = _FILES[_file_key(inp["file"], inp["fsr"])][1]
+    if codes.ndim != 2 or codes.shape[1] != fcodes.shape[1]:
+        return _m("the clip does not have the channels of the file",
+                  f"array of shape {list(codes.shape)}, the file has {fcodes.shape[1]} channels")
+    if rdata.ndim != 2 or rdata.shape[1] != fcodes.shape[1]:
+        return _m("load_recording does not return the channels of the file",
+                  f"array of shape {list(rdata.shape)}, the file has {fcodes.shape[1]} channels")
     for what, src, scale in (("load_recording", rdata, 32768.0), ("the file as written", fcodes, 1.0)):
         M = src.shape[0]
         want = np.zeros_like(codes)
@@ -1418,6 +1450,231 @@ def _nontrivial_session(inp, out):
 
 OPS["session"] = Op("session", _impl_session, to_model=_tm_session, compare=_compare_session, holds=_holds_session,
                     nontrivial=_nontrivial_session, mode="tolerance")
+
+
+# (3) `file_history`: the file system is state.  The WAV file under a path is REWRITTEN between loads (a longer or
+#     shorter take, another samplerate, another channel count, other sample values of equal length, the very same
+#     content again), the Recording is re-made (`Recording.from_file`, the constructor) or the fields of the
+#     Recording object used before are assigned / `model_copy(update=…)`ed accordingly, and `load_clip` /
+#     `load_recording` are called again.  Every load is judged by the Lean file-system model (`SE.Audio.FS.exec`,
+#     theorems C15_fs_load_after_rewrite, C15_fs_history): the base operation's model on the content the path holds
+#     at that moment - the harness wrote the PCM codes, so it knows them.  Arrays loaded before a rewrite are looked
+#     at again after it.  Every evaluation works in a fresh directory (a replay is the whole history).
+_FH_COUNT = [0]
+FH_HOW = ("inplace", "replace", "unlink")
+FH_REC = ("from_file", "ctor", "assign", "copy_update")
+
+
+def _fh_write(path, codes, fsr, how, prev_mtime):
+    """(re)write the WAV file under `path`: in place (`open(path, "w")` truncates the same inode), atomically (a
+    temporary file renamed over it: another inode), or removed first.  The modification time always advances by at
+    least 1 ms over the previous content's (set explicitly when the clock did not): a cache that is validated by
+    (mtime, size) is a correct cache."""
+    import numpy as np
+    import soundfile as sf
+    if how == "replace" and os.path.exists(path):
+        tmp = path[:-4] + ".tmp.wav"
+        sf.write(tmp, codes.astype(np.int16), fsr, subtype="PCM_16")
+        os.replace(tmp, path)
+    else:
+        if how == "unlink" and os.path.exists(path):
+            os.remove(path)
+        sf.write(path, codes.astype(np.int16), fsr, subtype="PCM_16")
+    st = os.stat(path)
+    if prev_mtime is not None and st.st_mtime_ns < prev_mtime + 1_000_000:
+        os.utime(path, ns=(st.st_atime_ns, prev_mtime + 1_000_000))
+        st = os.stat(path)
+    return st.st_mtime_ns
+
+
+def _fh_content(st):
+    """the content a `write` step puts under its path, as a case of the base operations"""
+    return {"file": st["file"], "fsr": st["fsr"], "te": st.get("te", "1")}
+
+
+def _fh_recording(st, path, prev):
+    """the Recording describing the file just written: re-made, or the object used before brought up to date"""
+    from pathlib import Path
+    from soundevent import data
+    c = _fh_content(st)
+    te = frac(c["te"])
+    tef = int(te) if te.denominator == 1 else float(te)
+    m = _tm_recording_of(c)
+    sr, dur, ch = m["sr"], float(frac(m["duration"])), st["file"]["ch"]
+    pth = Path(path) if st.get("pathtype") == "path" else path
+    mode = st.get("rec", "from_file")
+    if mode == "ctor":
+        return data.Recording(path=pth, samplerate=sr, duration=dur, channels=ch, time_expansion=tef), mode
+    if mode == "assign" and prev is not None:
+        prev.samplerate, prev.duration, prev.channels, prev.time_expansion = sr, dur, ch, tef
+        return prev, mode
+    if mode == "copy_update" and prev is not None:
+        return prev.model_copy(update={"samplerate": sr, "duration": dur, "channels": ch, "time_expansion": tef}), mode
+    return data.Recording.from_file(pth, time_expansion=tef, compute_hash=False), "from_file"
+
+
+def _impl_file_history(inp):
+    import soundfile as sf
+    _FH_COUNT[0] += 1
+    d = os.path.join(_wav_dir(), "h%05d" % _FH_COUNT[0])
+    os.makedirs(d, exist_ok=True)
+    cur = {}        # path label -> {"path", "rec", "mtime"}
+    live, outs, notes = [], [], []
+    try:
+        for k, st in enumerate(inp["steps"]):
+            arr = None
+            try:
+                kind = st["k"]
+                c = cur.get(st["p"])
+                if kind == "write":
+                    path = os.path.join(d, "%s.wav" % st["p"])
+                    mt = _fh_write(path, _codes(st["file"]), st["fsr"], st.get("how", "inplace"), c and c["mtime"])
+                    cur[st["p"]] = {"path": path, "rec": None, "mtime": mt}      # the file is rewritten whatever follows
+                    rec, mode = _fh_recording(st, path, c and c["rec"])
+                    cur[st["p"]]["rec"] = rec
+                    out = {"val": {"sr": rec.samplerate, "duration": rat(rec.duration), "channels": rec.channels},
+                           "aux": {"rec": mode}}
+                elif c is None or c["rec"] is None:
+                    out = {"raise": "nosource"}
+                elif kind == "load_clip":
+                    clip = _clip_of(c["rec"], st)
+                    arr = _call("load_clip", _fn("load_clip"), st.get("call", "mixed"), {"clip": clip})
+                    out = _clip_out(arr, c["rec"])
+                elif kind == "load_recording":
+                    arr = _call("load_recording", _fn("load_recording"), st.get("call", "mixed"),
+                                {"recording": _via(c["rec"], st.get("via", "ctor"))})
+                    if arr.dims != ("time", "channel") or list(arr.channel.data) != list(range(arr.shape[1])):
+                        out, arr = {"raise": "crash:dims", "trace": f"dims {arr.dims}, channel coordinate {list(arr.channel.data)}"}, None
+                    else:
+                        out = {"val": {"frames": _codes_out(arr.data), "times": _rats(arr.time.data),
+                                       "step": rat(float(arr.time.attrs["step"]))},
+                               "aux": {"sr": c["rec"].samplerate, "duration": rat(c["rec"].duration)}}
+                else:
+                    raise ValueError(f"unknown file-history step {kind!r}")
+            except sf.LibsndfileError:
+                out = {"raise": "seek"}
+            except InfraError:
+                raise
+            except Exception as e:  # noqa: BLE001 - an exception of the real code is an observation of that step
+                out = canon_exc(e)
+                if out["raise"].startswith("crash:"):
+                    out["trace"] = "".join(traceback.format_exception_only(type(e), e))[-300:]
+            outs.append(out)
+            # arrays loaded earlier are the caller's: rewriting the file must not change them
+            for j, L in enumerate(live):
+                if L["arr"] is not None:
+                    now = _snap(L["arr"])
+                    if now != L["snap"]:
+                        notes.append({"after": k, "array": j, "what": _snap_diff(L["snap"], now)[:300]})
+                        L["snap"] = now
+            live.append({"arr": arr, "snap": _snap(arr) if arr is not None else None})
+    finally:
+        shutil.rmtree(d, ignore_errors=True)
+    return {"steps": outs, "notes": notes}
+
+
+def _fh_walk(inp):
+    """per step: the content its path holds at that moment (None before the first write) and, for loads, the case
+    of the base operation (`load_clip` / `recording_of_file`) on that content"""
+    cur, out = {}, []
+    for st in inp["steps"]:
+        if st["k"] == "write":
+            cur[st["p"]] = _fh_content(st)
+            out.append(cur[st["p"]])
+        elif st["p"] not in cur:
+            out.append(None)
+        elif st["k"] == "load_clip":
+            out.append({**cur[st["p"]], "s": st["s"], "e": st["e"]})
+        else:
+            out.append(dict(cur[st["p"]]))
+    return out
+
+
+def _tm_file_history(inp):
+    """the calls of the Lean file-system model: a `write` step is `put` followed by `Recording.from_file`"""
+    cmds = []
+    for st, c in zip(inp["steps"], _fh_walk(inp)):
+        if st["k"] == "write":
+            cmds.append({"k": "put", "p": st["p"], "file": st["file"], "fsr": st["fsr"]})
+            cmds.append({"k": "from_file", "p": st["p"], "te": c["te"]})
+        elif c is None:
+            cmds.append({"k": "load_recording", "p": st["p"], "sr": 1, "duration": "0"})     # no file: `notfound`
+        else:
+            m = _tm_recording_of(c)
+            cmd = {"k": st["k"], "p": st["p"], "sr": m["sr"], "duration": m["duration"]}
+            if st["k"] == "load_clip":
+                cmd.update(s=st["s"], e=st["e"])
+            cmds.append(cmd)
+    return {"steps": cmds}
+
+
+def _fh_model_steps(inp, mo):
+    """the model's answers aligned with the steps (for a `write`: what `from_file` answers)"""
+    ms, out, i = mo["val"], [], 0
+    for st in inp["steps"]:
+        i += 2 if st["k"] == "write" else 1
+        out.append(ms[i - 1] if i - 1 < len(ms) else {"raise": "missing"})
+    return out
+
+
+def _fhm(cls, k, inp, detail=""):
+    st = inp["steps"][k]
+    nw = sum(1 for x in inp["steps"][:k + 1] if x["k"] == "write" and x["p"] == st["p"])
+    return _m("file history: " + cls, f"step {k} ({st['k']} of path {st['p']!r}, content no. {nw} of that path): {detail}")
+
+
+def _holds_file_history(ctx, inp, io):
+    if _is_raise(io):
+        return _m("file history: the driver of the history raised", str(io.get("raise")) + " " + str(io.get("trace", ""))[-200:])
+    for n in io.get("notes", []):
+        return _fhm("a later call / a rewrite of the file changed an array loaded earlier", n["after"], inp,
+                    f"array of step {n['array']} changed: {n['what']}")
+    for k, (st, out, c) in enumerate(zip(inp["steps"], io["steps"], _fh_walk(inp))):
+        msg = None
+        if c is None:
+            continue
+        if st["k"] == "write":
+            if _is_raise(out):
+                msg = _m("the Recording of a rewritten file could not be made", str(out))
+            elif out["aux"]["rec"] == "from_file":
+                m = _tm_recording_of(c)
+                n = _nframes(c["file"])
+                ok = (out["val"]["sr"] == m["sr"] and abs(frac(out["val"]["duration"]) * m["sr"] - n) < Fraction(1, 2)
+                      and out["val"]["channels"] == c["file"]["ch"])
+                ctx.tally("contract:from_file after rewrite")
+                if not ok:
+                    msg = _m("Recording.from_file does not describe the file as it is on disk now",
+                             f"samplerate {out['val']['sr']}, duration {float(frac(out['val']['duration']))!r}, channels "
+                             f"{out['val']['channels']}; the file has {n} frames, {c['file']['ch']} channels at {c['fsr']} Hz "
+                             f"(expansion {c['te']})")
+        else:
+            try:
+                msg = _holds_load_clip(ctx, c, out) if st["k"] == "load_clip" else _holds_recording(ctx, c, out)
+            except InfraError:
+                raise
+            except Exception as e:  # noqa: BLE001 - an answer of a shape the judge of the base operation cannot read
+                msg = _m("the loaded array is not an array of the file's frames (the judge could not read it)", repr(e)[:200])
+        if msg:
+            cls, detail = _strip_cls(msg)
+            return _fhm(cls, k, inp, detail)
+    return None
+
+
+def _compare_file_history(inp, io, mo):
+    if _is_raise(io) or _is_raise(mo):
+        return None if _is_raise(io) else _m("file history: the model could not evaluate the history", str(mo))
+    for k, (st, out, c, m) in enumerate(zip(inp["steps"], io["steps"], _fh_walk(inp), _fh_model_steps(inp, mo))):
+        if c is None or st["k"] == "write":
+            continue     # `from_file` is a monitored contract (judged by `holds` against the harness's own numbers)
+        msg = _compare_load_clip(c, out, m) if st["k"] == "load_clip" else _compare_recording(c, out, m)
+        if msg:
+            cls, detail = _strip_cls(msg)
+            return _fhm(cls, k, inp, detail)
+    return None
+
+
+OPS["file_history"] = Op("file_history", _impl_file_history, to_model=_tm_file_history, compare=_compare_file_history,
+                         holds=_holds_file_history, nontrivial=_nontrivial_session, mode="exact", model_op="fs_history")
 
 
 # ---------------------------------------------------------------------- generators
@@ -1989,6 +2246,104 @@ def _clip_history_cases(ctx, pool, count):
     return history.sequences(rng, base_cases, count, variants=variants, reuse_hows=H_REUSE, poison=True)
 
 
+FH_CHANGES = ("longer", "longer", "much-longer", "shorter", "rate", "channels", "values", "same", "expansion")
+
+
+def _fh_next_take(rng, prev, change):
+    """the content a path is rewritten with, given what it held"""
+    fd = dict(prev["file"])
+    out = {"file": fd, "fsr": prev["fsr"], "te": prev["te"]}
+    n = fd["n"]
+    if change == "longer":
+        fd["n"] = n + rng.choice([1, 2, 7, n // 2 + 1, n])
+    elif change == "much-longer":
+        fd["n"] = min(3000, 3 * n + rng.randint(0, 50))
+    elif change == "shorter":
+        fd["n"] = max(1, rng.choice([n - 1, n // 2, n // 3, 1]))
+    elif change == "rate":
+        out["fsr"] = rng.choice([r for r in FILE_RATES if r != prev["fsr"]])
+    elif change == "channels":
+        fd["ch"] = rng.choice([c for c in (1, 2, 3) if c != fd["ch"]])
+    elif change == "expansion":
+        out["te"] = rng.choice([t for t in EXPANSIONS if t != prev["te"]])
+    if change not in ("same", "expansion"):
+        fd["b"] = (fd["b"] + rng.randint(1, 60000)) % 65536       # other sample values
+        if change == "values":
+            fd["a"] = rng.choice([x for x in (1, 7, 257, 4099) if x != fd["a"]])
+    return out
+
+
+def _file_history_cases(ctx, count):
+    """histories in which the file under a path is rewritten between loads (HISTORIES.md section 1, the file system
+    as the state): 2-4 contents per path, every kind of change, loads before and after each rewrite - the same clip as
+    before the rewrite, a clip of the region that exists only now, a clip around the old end, the whole file"""
+    rng = ctx.rng
+    out = []
+    for i in range(count):
+        steps = []
+        labels = ["a"] if rng.random() < 0.7 else ["a", "b"]
+        cur = {}
+        for t in range(rng.randint(2, 4)):
+            for p in labels:
+                if p == "b" and rng.random() < 0.5 and "b" in cur:
+                    continue
+                prev = cur.get(p)
+                if prev is None:
+                    c = {"file": _gen_file(rng, rng.choice([7, 100, 250, 250, 1000])), "fsr": rng.choice(FILE_RATES),
+                         "te": rng.choice(EXPANSIONS)}
+                    change = "first"
+                else:
+                    change = FH_CHANGES[(i + t) % len(FH_CHANGES)] if t == 1 else rng.choice(FH_CHANGES)
+                    c = _fh_next_take(rng, prev, change)
+                w = {"k": "write", "p": p, **c, "how": rng.choice(FH_HOW), "rec": rng.choice(FH_REC)}
+                if rng.random() < 0.3:
+                    w["pathtype"] = "path"
+                steps.append(w)
+                ctx.tally("file_history:rewrite:" + change)
+                if prev is not None:
+                    ctx.tally("file_history:how:" + w["how"])
+                    ctx.tally("file_history:recording:" + w["rec"])
+                cur[p] = c
+                sr, n = _sr(c), c["file"]["n"]
+                n_old = prev["file"]["n"] if prev is not None else None
+                loads = []
+                if prev is not None:
+                    # what was loaded before the rewrite, again
+                    loads += [dict(x) for x in prev.get("_loads", [])[:2]]
+                    if n > n_old:
+                        u0 = rng.randint(n_old, n - 1)          # frames that exist only now
+                        loads.append({"k": "load_clip", "p": p, "s": rat(Fraction(u0, sr)),
+                                      "e": rat(Fraction(min(n + 3, u0 + rng.randint(1, 60)), sr))})
+                    u0 = max(0, min(n_old, n) - rng.randint(1, 20))  # around the old / the new end
+                    loads.append({"k": "load_clip", "p": p, "s": rat(Fraction(u0, sr)),
+                                  "e": rat(Fraction(max(n_old, n) + rng.randint(0, 5), sr))})
+                for _ in range(rng.randint(1, 2)):
+                    _kind, s, e = _gen_clip_times(rng, c, grid=True)
+                    loads.append({"k": "load_clip", "p": p, "s": rat(s), "e": rat(e)})
+                if rng.random() < 0.7:
+                    loads.append({"k": "load_recording", "p": p})
+                if rng.random() < 0.3:
+                    loads.append({"k": "load_clip", "p": p, "s": "0", "e": rat(Fraction(n, sr))})    # the whole file
+                rng.shuffle(loads)
+                for ld in loads:
+                    if not _pow2(sr) and ld["k"] == "load_clip":
+                        k2 = min(24, sr.bit_length() + 2)
+                        s2, e2 = _dyadic(frac(ld["s"]), k2), _dyadic(frac(ld["e"]), k2)
+                        ld["s"], ld["e"] = rat(s2), rat(max(s2, e2))
+                    if rng.random() < 0.25:
+                        ld["call"] = rng.choice(["kw", "pos"])
+                    if rng.random() < 0.2:
+                        ld["via"] = rng.choice(["validate", "json", "copy"])
+                    ctx.tally("file_history:step:" + ld["k"] + (" after a rewrite" if prev is not None else ""))
+                cur[p] = {**c, "_loads": [x for x in loads if x["k"] == "load_clip"]}
+                steps.extend(loads)
+        # an earlier path is loaded again after the other one was rewritten
+        if len(labels) == 2:
+            steps.append({"k": "load_recording", "p": "a"})
+        out.append({"steps": steps})
+    return out
+
+
 SESSION_RATIOS = [(1, 2), (1, 3), (2, 1), (1, 4), (3, 2), (2, 3), (1, 1), (3, 1)]
 
 
@@ -2306,6 +2661,7 @@ def _stage_histories(ctx):
             ctx.tally("history:" + (st.get("reuse") or "fresh") + ("+poison" if st.get("poison") else ""))
     ctx.run_cases(OPS["load_clip_history"], hs)
     ctx.run_cases(OPS["session"], _session_cases(ctx, pool + rsr, ctx.budget(170, 1400)))
+    ctx.run_cases(OPS["file_history"], _file_history_cases(ctx, ctx.budget(48, 400)))
 
 
 def _timed(ctx, name, fn, *args):
